@@ -166,6 +166,12 @@ def run(ctx):
                   'are queued that the rolling hash never saw, so later boundaries depend on how the caller split the '
                   'data into write calls', c.file, c.line, config=config)
         ck.min_instances('comp_write calls of the automatic branch', nq, 2)
+        # ---- g  an empty piece is accepted on the write path
+        from ..rules import zerolen
+        nz, nskip = zerolen.check_zero_length(ck, prog, config, 'C16-g')
+        ck.ob('C16-g', 'R2.zero-length', 'write path', 'closure', True,
+              '%d call site(s) passing a local length to a zero-rejecting function on the write path; %d site(s) passing a '
+              'field skipped (object invariants are not decided)' % (nz, nskip), trivial=True, config=config)
         # canonical maximum-size test
         subst = unique_defs(zw)
         g = prog.cfg(zw)
@@ -368,7 +374,22 @@ CLAIM = {
 }
 
 MUTANTS = [
-    {'id': 'm16m', 'desc': 'automatic maximum no longer raised to the configured minimum (pre-fix form)',
+    {'id': 'm16z', 'desc': 'comp_write no longer returns early for an empty piece (seeded c16r2)',
+     'file': 'src/lib/comp/comp.c',
+     'old': """    VALIDATE_WRITE_INT(zck);
+
+    if(src_size == 0)
+        return 0;
+
+    char *dst = NULL;""", 'new': """    VALIDATE_WRITE_INT(zck);
+
+    char *dst = NULL;""", 'expect': 'R2.zero-length zck_write'},
+    {'id': 'n16z', 'desc': 'empty-piece test written as a positive guard around the body', 'file': 'src/lib/comp/comp.c',
+     'old': """    if(zck->has_uncompressed_source && !hash_update(zck, &(zck->work_index_hash_uncomp), src, src_size))
+        return -1;""", 'new': """    if(src_size > 0 && zck->has_uncompressed_source &&
+       !hash_update(zck, &(zck->work_index_hash_uncomp), src, src_size))
+        return -1;""", 'expect': None},
+    {'id': 'm16n', 'desc': 'automatic maximum no longer raised to the configured minimum (pre-fix form)',
      'file': 'src/lib/comp/comp.c',
      'old': """            if(zck->chunk_auto_max < zck->chunk_min_size)
                 zck->chunk_auto_max = zck->chunk_min_size;
